@@ -109,6 +109,7 @@ def run(ctx):
     ctx.not_decided = NOT
     prog = ctx.prog("infinity_pool")
     ctx.rule("R10.checked-entry-points-check", "every insert entry point of the opaque pools that is not `_unchecked` verifies T's layout against the pool's (itself, or by forwarding to a checked entry point)", floor=6)
+    ctx.rule("R12.prefault-only-on-fresh-memory", "the page pre-faulting helper (which WRITES over the whole slot array) runs only inside Slab::new, before the slot metadata is initialised: called on a constructed slab it wipes the free list and the occupancy of every slot", floor=1)
     ctx.rule("R11.twin-agreement", "each operation of a thread-safe pool and of its single-threaded twin (OpaquePool/LocalOpaquePool, PinnedPool/LocalPinnedPool, BlindPool/LocalBlindPool) forwards to the same raw-pool operation: the twins differ in locking only", floor=20, shape_dependent=True)
     ctx.rule("R1.storage-immobility", "alloc only in Slab::new, dealloc only in Slab::drop, no realloc; first_slot_ptr only set in the aggregate built by Slab::new", floor=4)
     ctx.rule("R2.slab-vector", "every method called on RawOpaquePool::slabs is in the order-preserving set; push/extend/truncate only in their sanctioned functions", floor=8)
@@ -390,6 +391,7 @@ def shared_rules(ctx, prog):
     })
     checked_entry_points(ctx, prog)
     twin_agreement(ctx, prog)
+    prefault_rule(ctx, prog)
 
 
 
@@ -578,6 +580,26 @@ def checked_entry_points(ctx, prog):
                f"calls {sorted({t['callee'].get('method') for _b, t in unchecked})}; own layout comparison (object_layout) dominating it: {ok}")
     if n == 0:
         ctx.missing(RID, "checked insert entry points of the opaque pools")
+
+
+def prefault_rule(ctx, prog):
+    RID = "R12.prefault-only-on-fresh-memory"
+    sites = who_calls(prog, "ensure_virtual_pages_mapped_to_physical_pages")
+    sites = [(b, bb, t) for b, bb, t in sites if "::tests" not in b.key]
+    if not sites:
+        ctx.missing(RID, "calls of ensure_virtual_pages_mapped_to_physical_pages")
+        return
+    for b, bb, t in sites:
+        ctx.fn(b)
+        in_new = b.key.endswith("opaque::slab::Slab::new")
+        before_init = False
+        if in_new:
+            # before any slot metadata is written: the call dominates every in-loop write through a slot pointer
+            dom = b.dominators(unwind=False)
+            ws = [x for x, tt in b.calls() if tt["callee"].get("method") in ("write", "write_unaligned", "write_bytes") and b.in_loop(x) and not b.blocks[x].cleanup]
+            before_init = bool(ws) and all(bb in dom[x] for x in ws)
+        ctx.ob(RID, f"{b.key.split('infinity_pool::')[-1]}", in_new and before_init, b.loc(t["span"]),
+               f"called from Slab::new: {in_new}; before the slot metadata initialisation loop: {before_init}")
 
 
 def twin_agreement(ctx, prog):
